@@ -370,6 +370,17 @@ int buffered_socket_writev(void *this_ptr, struct socket_io_vector *io_vec, unsi
 		io_vec_written = written - bs->to_write;
 		bs->to_write = 0;
 	}
+	/*
+	 * Queue the unsent rest of the new data completely or not at all. Otherwise a part of
+	 * a frame (e.g. only its length prefix) would stay in the write buffer and be followed
+	 * by the next frame.
+	 */
+	size_t new_data = to_write - written - bs->to_write;
+	if (unlikely(new_data > (size_t)CONFIG_MAX_WRITE_BUFFER_SIZE - bs->to_write)) {
+		log_err("not enough space left in write buffer! %zu bytes of %i left", (size_t)CONFIG_MAX_WRITE_BUFFER_SIZE - bs->to_write, CONFIG_MAX_WRITE_BUFFER_SIZE);
+		return -1;
+	}
+
 	if (unlikely(copy_iovec_to_write_buffer(bs, io_vec, count, io_vec_written) < 0)) {
 		return -1;
 	}
